@@ -37,12 +37,12 @@ def run(ctx):
         return
     maxlen, maxpay = (7, 4) if thorough else (6, 3)
     total = 0
-    for mode in ("raw", "edit"):
+    for mode in ("raw", "edit", "hdr"):
         r = ctx.tlc("MCNcFraming", cfg="c.cfg", files={"c.cfg": MC % (mode, maxlen, maxpay)}, timeout=3000)
         if r["violated"]:
             raise ToolError("NcFraming.tla violates its own invariants (encoder/decoder round trip):\n" + r["stdout"][-1500:])
         scns = r["scn"]
-        if len(scns) < 1000:
+        if len(scns) < (1000 if mode != "hdr" else 200):
             raise ToolError("MCNcFraming(%s) produced only %d cases" % (mode, len(scns)))
         res = ctx.run_harness("c02rec", scns, timeout=3000)
         summ = [x for x in res if x.get("summary")]
